@@ -137,7 +137,7 @@ def bech32_dec(hrp, s):
     h, dp = s[:pos], s[pos + 1:]
     if any(ord(x) < 33 or ord(x) > 126 for x in h):
         return [1, b""]
-    if len(dp) < 7 or any(x not in CHARSET for x in dp):
+    if len(dp) < 6 or any(x not in CHARSET for x in dp):   # Bech32Decoder: empty data part accepted (BIP-0173 "a12uel5l")
         return [1, b""]
     d5 = [CHARSET.find(x) for x in dp]
     if _polymod(_hrp_expand(h) + d5) != 1:
